@@ -288,7 +288,8 @@ class PBES2HSAlgModel(JWEKeyEncryption):
         assert "p2c" in headers
         p2s = urlsafe_b64decode(to_bytes(headers["p2s"]))
         p2c = headers["p2c"]
-        if p2c < 1:
+        # the count comes from an untrusted header; the KDF takes a positive C int
+        if p2c < 1 or p2c > 2147483647:
             raise ValueError('"p2c" in header must be a positive integer')
 
         key = recipient.recipient_key
